@@ -155,10 +155,23 @@ class Executor:
             self.solver.add(extra)
         r = self.solver.check()
         self.solver.pop()
+        if r == z3.unknown:
+            r, _ = self._second_opinion(st, extra)
         self.solver_s += time.time() - t0
         if r == z3.unknown:
             raise Inconclusive("solver returned unknown on a feasibility query")
         return r == z3.sat
+
+    def _second_opinion(self, st, extra, want_model=False):
+        """The incremental solver gave up (its push/pop mode does not bit-blast eagerly): ask a fresh QF_BV solver."""
+        s2 = z3.SolverFor("QF_BV")
+        s2.set("timeout", 120000)
+        for c in st.pc:
+            s2.add(c)
+        if extra is not None:
+            s2.add(extra)
+        r = s2.check()
+        return r, (s2.model() if (want_model and r == z3.sat) else None)
 
     def model(self, st, extra=None):
         self.queries += 1
@@ -170,6 +183,8 @@ class Executor:
         r = self.solver.check()
         m = self.solver.model() if r == z3.sat else None
         self.solver.pop()
+        if r == z3.unknown:
+            r, m = self._second_opinion(st, extra, want_model=True)
         if r == z3.unknown:
             raise Inconclusive("solver returned unknown")
         return m
@@ -495,6 +510,13 @@ class Executor:
         f = BINOPS[op]
         if op.endswith("WithOverflow"):
             res, ovf = f(a, b)
+            if op == "AddWithOverflow":
+                # interval pre-check: when the operands' upper bounds (from the path condition) cannot reach 2^n the
+                # overflow flag is false - no adder-tree query for the SAT back end
+                bounds = _bounds_from_pc(st.pc)
+                ua, ub_ = _upper_bound(a, bounds), _upper_bound(b, bounds)
+                if ua is not None and ub_ is not None and ua + ub_ < (1 << a.size()):
+                    ovf = z3.BoolVal(False)
             o = Obj("(int, bool)")
             o.fields[(None, 0)] = Cell(res)
             o.fields[(None, 1)] = Cell(ovf)
@@ -958,6 +980,59 @@ class Executor:
             nf.locals[idx] = Cell(v)
         self.functions_used.add(fn.name)
         st.frames.append(nf)
+
+
+def _bounds_from_pc(pc):
+    """upper bounds of bit-vector constants stated in the path condition as `Extract(hi, k, x) == 0` or `ULE/ULT(x, c)`"""
+    out = {}
+
+    def visit(c):
+        if z3.is_and(c):
+            for ch in c.children():
+                visit(ch)
+            return
+        if z3.is_eq(c):
+            l, r = c.children()
+            if z3.is_bv_value(r) and r.as_long() == 0 and z3.is_app_of(l, z3.Z3_OP_EXTRACT) and z3.is_const(l.arg(0)):
+                hi, lo = l.params()
+                x = l.arg(0)
+                if hi == x.size() - 1:
+                    out[x.decl().name()] = min(out.get(x.decl().name(), 1 << 200), (1 << lo) - 1)
+            return
+        if z3.is_app_of(c, z3.Z3_OP_ULEQ) or z3.is_app_of(c, z3.Z3_OP_ULT):
+            l, r = c.children()
+            if z3.is_const(l) and not z3.is_bv_value(l) and z3.is_bv_value(r):
+                v = r.as_long() - (1 if z3.is_app_of(c, z3.Z3_OP_ULT) else 0)
+                out[l.decl().name()] = min(out.get(l.decl().name(), 1 << 200), v)
+    for c in pc:
+        try:
+            visit(c)
+        except Exception:
+            pass
+    return out
+
+
+def _upper_bound(t, bounds, depth=0):
+    if depth > 60:
+        return None
+    if z3.is_bv_value(t):
+        return t.as_long()
+    if z3.is_const(t):
+        return bounds.get(t.decl().name())
+    if z3.is_app_of(t, z3.Z3_OP_BADD):
+        tot = 0
+        for ch in t.children():
+            u = _upper_bound(ch, bounds, depth + 1)
+            if u is None:
+                return None
+            tot += u
+        return tot if tot < (1 << t.size()) else None
+    if z3.is_app_of(t, z3.Z3_OP_ZERO_EXT):
+        return _upper_bound(t.arg(0), bounds, depth + 1)
+    if z3.is_app_of(t, z3.Z3_OP_ITE):
+        a, b = _upper_bound(t.arg(1), bounds, depth + 1), _upper_bound(t.arg(2), bounds, depth + 1)
+        return None if a is None or b is None else max(a, b)
+    return None
 
 
 def _add_ovf(a, b):
